@@ -20,3 +20,5 @@ def run(ctx):
         g72x.run(ctx, "C06", 120 if q else 1200)
         from .. import gsm
         gsm.run(ctx, "C06", 120 if q else 1200)
+        from .. import alac           # CAF/ALAC: packet staging, pakt / kuki chunks, read / seek around the codec core (lean/SfModel/AlacFile.lean)
+        alac.run(ctx, "C06", 96 if q else 960)
